@@ -16,7 +16,7 @@ def typ_class(t):
         return "untyped"
     for k in ("Optional", "Literal", "List", "Union"):
         if t.startswith(k + "["):
-            return k
+            return k + ("-long" if len(t) > 85 else "")
     return "simple" if t in ("int", "float", "str", "bool", "dict", "complex") else "other"
 
 
